@@ -26,6 +26,10 @@ const (
 	KDoltCommit    // CALL dolt_commit('-m', ..): commits what is staged
 	KDoltAdd       // CALL dolt_add('-A')
 	KDoltCommitAll // CALL dolt_commit('-a', '-m', ..)
+	KReadHead      // SELECT .. FROM t AS OF 'HEAD'
+	KReadBranch    // SELECT .. FROM t AS OF 'main'
+	KReadRevDb     // SELECT .. FROM `<db>/main`.t
+	KReadStaged    // SELECT .. FROM t AS OF 'STAGED'
 )
 
 type Case struct {
@@ -75,6 +79,12 @@ func Render(st []int) string {
 		return "CALL dolt_add('-A')"
 	case KDoltCommitAll:
 		return "CALL dolt_commit('-a', '-m', 'c')"
+	case KReadHead:
+		return "SELECT pk, a, b FROM t AS OF 'HEAD'"
+	case KReadBranch:
+		return "SELECT pk, a, b FROM t AS OF 'main'"
+	case KReadStaged:
+		return "SELECT pk, a, b FROM t AS OF 'STAGED'"
 	}
 	return "SELECT 'bad kind'"
 }
@@ -102,8 +112,12 @@ func Run(raw json.RawMessage) (any, error) {
 		}
 	}
 	for _, st := range c.Steps {
-		so := sqlsched.Exec(w.Sess[st[0]], Render(st))
-		if st[1] >= KDoltCommit {
+		q := Render(st)
+		if st[1] == KReadRevDb {
+			q = "SELECT pk, a, b FROM `" + w.Env.DBName + "/main`.t"
+		}
+		so := sqlsched.Exec(w.Sess[st[0]], q)
+		if st[1] >= KDoltCommit && st[1] <= KDoltCommitAll {
 			so.Rows = [][]int{} // commit hash / status are not observables
 			so.Aff = 0
 		}
